@@ -569,10 +569,10 @@ impl InstrFormat for InstrFormat06 {
             Err(e) => return Err(e),
         };
 
-        let opcode = f.read_i8()?;
+        let opcode = f.read_u8()?;
         let argsize = f.read_u8()? as usize;
         let args_blob = f.read_byte_vec(argsize)?;
-        let instr = RawInstr { time, opcode: opcode as u16, param_mask: 0, args_blob, ..RawInstr::DEFAULTS };
+        let instr = RawInstr { time, opcode: opcode.into(), param_mask: 0, args_blob, ..RawInstr::DEFAULTS };
 
         if (time, opcode, argsize) == (0, 0, 0) {
             Ok(ReadInstr::MaybeTerminal(instr))
@@ -581,10 +581,10 @@ impl InstrFormat for InstrFormat06 {
         }
     }
 
-    fn write_instr(&self, f: &mut BinWriter, _: &dyn Emitter, instr: &RawInstr) -> WriteResult {
-        f.write_i16(instr.time as _)?;
-        f.write_u8(instr.opcode as _)?;
-        f.write_u8(instr.args_blob.len() as _)?;
+    fn write_instr(&self, f: &mut BinWriter, emitter: &dyn Emitter, instr: &RawInstr) -> WriteResult {
+        f.write_i16(llir::fit_header_field(emitter, "time", instr.time)?)?;
+        f.write_u8(llir::fit_header_field(emitter, "opcode", instr.opcode)?)?;
+        f.write_u8(llir::fit_header_field(emitter, "argument size", instr.args_blob.len())?)?;
         f.write_all(&instr.args_blob)?;
         Ok(())
     }
@@ -614,10 +614,11 @@ impl InstrFormat for InstrFormat07 {
         Ok(ReadInstr::Instr(RawInstr { time, opcode: opcode as _, param_mask, args_blob, ..RawInstr::DEFAULTS }))
     }
 
-    fn write_instr(&self, f: &mut BinWriter, _: &dyn Emitter, instr: &RawInstr) -> WriteResult {
+    fn write_instr(&self, f: &mut BinWriter, emitter: &dyn Emitter, instr: &RawInstr) -> WriteResult {
+        llir::forbid_terminal_opcode(emitter, instr.opcode)?;
         f.write_u16(instr.opcode)?;
-        f.write_u16(self.instr_size(instr) as _)?;
-        f.write_i16(instr.time as _)?;
+        f.write_u16(llir::fit_header_field(emitter, "instruction size", self.instr_size(instr))?)?;
+        f.write_i16(llir::fit_header_field(emitter, "time", instr.time)?)?;
         f.write_u16(instr.param_mask as _)?;
         f.write_all(&instr.args_blob)?;
         Ok(())
